@@ -306,6 +306,7 @@ func main() {
 		if len(os.Args) > 5 {
 			fmt.Sscan(os.Args[5], &n)
 		}
+		os.Unsetenv("C02_PRINTED") // side outputs belong to the full replay: a cold start must not truncate them
 		replayMain(p, os.Args[3], os.Args[4], 1+n)
 	case "record":
 		var seed int64
